@@ -32,7 +32,7 @@ var c09Families = []string{"corrupt", "cipher", "shape", "mutate"}
 var c09Corrupt = []string{"truncate-xml", "bitflip-xml", "truncate-b64", "bitflip-b64", "truncate-deflate", "bitflip-deflate", "delete-byte-xml", "insert-byte-xml"}
 var c09DataAlgIDs = []string{types.MethodAES128GCM, types.MethodAES192GCM, types.MethodAES256GCM, types.MethodAES128CBC, types.MethodAES256CBC, types.MethodTripleDESCBC, "urn:unknown", ""}
 var c09CipherKinds = []string{"length-sweep", "cbc-last-byte", "cbc-all-zero", "wrapped-key-length", "wrapped-key-size", "bad-base64", "missing-parts", "cbc-pad-then-zeros", "cbc-random-blocks"}
-var c09Cfgs = []string{"normal", "bare(empty-store,no-keys,nil-clock)", "failing-store", "skip-signature", "no-keys"}
+var c09Cfgs = []string{"normal", "bare(empty-store,no-keys,nil-clock)", "failing-store", "skip-signature", "no-keys", "validate-enc-cert+garbage-cert", "limit=maxint64", "limit=negative", "validate-enc-cert+empty-cert"}
 
 const c09Bases = 8
 
@@ -44,7 +44,7 @@ func init() {
 			"deep/wide/mixed documents; SP configurations normal / bare / failing store / skip / no keys; oracle: the call returns, pointer results obey exactly-one-of(result, error), no panic or fatal exit; distinct = shape hash (family, kind, base, offset bucket, config, outcome classes)",
 		Directed:   c09Directed,
 		Run:        c09Run,
-		MustHit:    []string{"family=corrupt", "family=cipher", "family=shape", "family=mutate", "truncate", "bitflip", "cipher=length-sweep", "cipher=cbc-last-byte", "cipher=cbc-all-zero", "cipher=wrapped-key-length", "cipher=cbc-pad-then-zeros", "cfg=bare(empty-store,no-keys,nil-clock)", "cfg=failing-store", "via_unsigned_response", "deep_document"},
+		MustHit:    []string{"family=corrupt", "family=cipher", "family=shape", "family=mutate", "truncate", "bitflip", "cipher=length-sweep", "cipher=cbc-last-byte", "cipher=cbc-all-zero", "cipher=wrapped-key-length", "cipher=cbc-pad-then-zeros", "cfg=bare(empty-store,no-keys,nil-clock)", "cfg=failing-store", "cfg=validate-enc-cert+garbage-cert", "cfg=limit=maxint64", "cfg=limit=negative", "via_unsigned_response", "deep_document"},
 		RandomRuns: map[string]int{"quick": 2500, "thorough": 150000},
 		Assumptions: []string{"stack exhaustion / fatal runtime errors are caught through the worker crash journal and reported as violations",
 			"for []byte results (DecryptBytes) an empty plaintext with nil error is a legitimate result; the exactly-one rule is applied to pointer results"},
@@ -117,9 +117,20 @@ func c09Directed(tier string) [][]uint64 {
 			out = append(out, []uint64{3, i % 3, base, i % 5, i*7919 + base, i})
 		}
 	}
+	// degenerate configurations against hostile ciphertexts, corrupted and compressed messages
+	for cfg := uint64(5); cfg < uint64(len(c09Cfgs)); cfg++ {
+		for k := uint64(0); k < 9; k++ {
+			out = append(out, []uint64{1, k, k % 8, cfg, 3 + k*5, k})
+		}
+		for k := uint64(0); k < uint64(len(c09Corrupt)); k++ {
+			for base := uint64(0); base < c09Bases; base++ {
+				out = append(out, []uint64{0, k, base, cfg, 100 + 37*k + 11*base, k})
+			}
+		}
+	}
 	// shapes
 	for sh := uint64(0); sh < 8; sh++ {
-		for cfg := uint64(0); cfg < 5; cfg++ {
+		for cfg := uint64(0); cfg < uint64(len(c09Cfgs)); cfg++ {
 			out = append(out, []uint64{2, sh, 0, cfg, sh * 3, 0})
 		}
 	}
@@ -179,8 +190,20 @@ type c09Call struct {
 	nilR bool // result pointer is nil
 }
 
-// callAll delivers enc to every inbound entry point.
+// callAll delivers enc to every inbound entry point, twice in a row on the same live SP
+// (an identical second call must be as total as the first).
 func c09CallAll(n *world.SPNode, enc string) []c09Call {
+	cs := c09CallOnce(n, enc)
+	for _, c := range c09CallOnce(n, enc) {
+		if c.out.Panic != "" || (c.out.Err == nil) == c.nilR {
+			c.name += "(second identical call)"
+			cs = append(cs, c)
+		}
+	}
+	return cs
+}
+
+func c09CallOnce(n *world.SPNode, enc string) []c09Call {
 	var cs []c09Call
 	add := func(name string, f func() (bool, error)) {
 		var isNil bool
@@ -235,6 +258,7 @@ func c09Run(r *core.Run) {
 	p2 := t.Int(1<<16, "c09.p2")
 
 	s := NewStd(r)
+	s.DrawLive()
 	spKey := 4
 	spCert := world.MintCert(spKey, s.Epoch.Add(-time.Hour), s.Epoch.Add(100*time.Hour), 1)
 	cfgName := c09Cfgs[cfgSel]
@@ -251,6 +275,16 @@ func c09Run(r *core.Run) {
 		s.Cfg.SkipSig = true
 	case "no-keys":
 		s.Cfg.EncStyle = world.KeyNone
+	case "validate-enc-cert+garbage-cert":
+		s.Cfg.ValidateEncCert = true
+		s.Cfg.EncCertRaw = []byte("-----BEGIN CERTIFICATE-----\nnot DER at all\n-----END CERTIFICATE-----\n")
+	case "validate-enc-cert+empty-cert":
+		s.Cfg.ValidateEncCert = true
+		s.Cfg.EncCertRaw = []byte{}
+	case "limit=maxint64":
+		s.Cfg.MaxBody = 1<<63 - 1
+	case "limit=negative":
+		s.Cfg.MaxBody = -int64(2 + p2%7)
 	}
 	if !s.Build() {
 		return
